@@ -86,6 +86,29 @@ CHECKS.update({
                      'in order (a prefix after a reset), never the incomplete one, responses in order, the task returns; natively a second connection '
                      'is still served.', design='5 C18', note=SOCK_NOTE + ' Task isolation and the accept loop continuing are tokio\'s (trusted).'),
 })
+CONC_NOTE = NOTE_COMMON + (' Concurrency: simulated threads execute the real MemcStore methods from MIR and are interleaved at every call into a shared '
+             'object (DashMap methods, atomics; guards hold the shard lock until their drop); all schedules of the listed client programs are explored, '
+             'data symbolic, clock constant during the episode, sequential consistency assumed. Witness schedules are replayed by forcing real threads '
+             'through the same order of steps via the cfg(memcrs_verif) yield points.')
+CHECKS.update({
+    'C03': dict(text='Exhaustive schedule exploration of get / set / CAS-set / delete programs of 2-3 clients on one key; per schedule and path the solver '
+                     'decides linearizability against a reference semantics with CAS values as tokens; direct assertions: at most one of two same-CAS '
+                     'stores on a live item succeeds, an acknowledged store is not undone by a retrieval collecting an expired predecessor.',
+                design='5 C03', note=CONC_NOTE + ' One known finding (conditional store on an absent key: get_mut then insert).'),
+    'C04': dict(text='Same machinery on add / replace / append / prepend / incr / decr racing each other and set / delete / get, with the named consequences '
+                     'as direct assertions. All six commands are lookup-then-store: one known finding per command (role-based region: a foreign mutation '
+                     'between the lookup and the store); non-linearizable behaviour outside those windows is a violation.',
+                design='5 C04', note=CONC_NOTE),
+    'C16': dict(text='(a) every command of both store variants from an arbitrary state: no map call while the thread holds a guard of the map, closures under a '
+                     'shard lock make no map call, loops end within the unwinding bound; (b) all schedules of 2-3 clients incl. flush and evicting stores: '
+                     'some client can always step and every command returns.',
+                design='5 C16', note=CONC_NOTE + ' Same-shard worst case for every pair of keys; lock fairness not modelled.'),
+    'C20': dict(text='(a) relational one-step check: every command gives the same result and map contents with and without the eviction layer while the limit '
+                     'is not reached; (b) symbolic execution of the server construction path: configured item limit / connection limit / store / policy are '
+                     'the ones that reach the codec, the semaphore and every listener.',
+                design='5 C20', note=NOTE_COMMON + ' Not decidable here and not claimed: equivalence of tokio schedulers and worker counts, SO_REUSEPORT '
+                                                   'distribution, ports, real-time ticking (no code of this crate to encode).'),
+})
 NA = {
 }
 ALL = ['C%02d' % i for i in range(1, 21)]
